@@ -180,7 +180,8 @@ func (r Res) String() string {
 		fmt.Fprintf(&b, "PANIC(%s) ", r.Panic)
 	}
 	if r.Err != "" {
-		fmt.Fprintf(&b, "err=%s(%s)", r.Err, r.ErrText)
+		// (the error text is not printed: rosmar builds some texts while ranging over a map)
+		fmt.Fprintf(&b, "err=%s", r.Err)
 	} else {
 		b.WriteString("ok")
 	}
